@@ -704,7 +704,7 @@ func streamC08(r *Rand, n int, o *Out) {
 				} else {
 					t = strings.Join(ps[:pos], ":") + "::" + strings.Join(ps[pos:], ":")
 				}
-				for _, tail := range []string{"", "1.2.3.4", "1.2.3", "255.255.255.256", "01.2.3.4"} {
+				for _, tail := range []string{"", "1.2.3.4", "1.2.3", "255.255.255.256", "01.2.3.4", "255.255.255.255", "192.168.100.200"} { // the last two: the longest valid texts (45 code points with six 4-digit pieces)
 					tt := t
 					if tail != "" {
 						if tt == "" || strings.HasSuffix(tt, ":") {
@@ -1463,9 +1463,14 @@ func streamC12(r *Rand, n int, o *Out) {
 
 // ---- C13 ---------------------------------------------------------------------------------------------
 
-func snapshot(u *url.Url) string {
+func snapshotNoErrs(u *url.Url) string {
 	d := url.VerifDump(u)
 	return fmt.Sprintf("%v|%v|%q|%v|%v|%v", getters(u), u.Href(true), d.SearchParams, u.DecodedPort(), u.OpaquePath(), u.IsIPv4())
+}
+
+func snapshot(u *url.Url) string {
+	d := url.VerifDump(u)
+	return fmt.Sprintf("%v|%v|%q|%v|%v|%v|%v", getters(u), u.Href(true), d.SearchParams, u.DecodedPort(), u.OpaquePath(), u.IsIPv4(), u.ValidationErrors())
 }
 
 // every kind of base x every kind of reference (or Clone) x every operation that writes a shared part in place
@@ -1540,7 +1545,16 @@ func streamC13(r *Rand, n int, o *Out) {
 		if rr.P(50) {
 			start = rr.Pick([]string{"http://h/a/b?x=1&y=2#f", "sc://u:p@h:1/p/q?a=b", "file:///C:/a/b?q", "sc:opaque?q=1#f", "https://h/?a=1", "http://h/a/b/c/d"})
 		}
-		a := h.ParsePkg(start)
+		// a third of the histories run under the reporting parser on inputs that record validation errors, so that the
+		// recorded-error list (a slice that setters append to) takes part in the independence check
+		reporting := rr.P(33)
+		var a int
+		if reporting {
+			start = rr.Pick([]string{"http://h/a b c d", "http://h/a b", " http://h/x y?p q#r s", "http://h\\a b/c d?e f", "sc://h/a b?c d#e f g", "http://u:p@h/a b c d e", "http://h/%zz %zz %zz"})
+			a = h.Parse(cfgReport, start)
+		} else {
+			a = h.ParsePkg(start)
+		}
 		if a < 0 {
 			continue
 		}
@@ -1566,7 +1580,9 @@ func streamC13(r *Rand, n int, o *Out) {
 		}
 		if kind == "clone" {
 			orc.Eval("C13")
-			if snapshot(h.urls[a]) != snapshot(h.urls[b]) {
+			// (the recorded validation errors are not compared here: the copy starts without them; they take part in the
+			// independence checks below)
+			if snapshotNoErrs(h.urls[a]) != snapshotNoErrs(h.urls[b]) {
 				orc.Fail("C13", "clone-differs", "the clone differs from the original", strings.Join(h.ops, " ; "))
 			}
 		}
@@ -1580,7 +1596,12 @@ func streamC13(r *Rand, n int, o *Out) {
 			switch rr.N(10) {
 			case 0, 1, 2, 3, 4:
 				st := rr.N(9)
-				h.Set(side, st, genSetterValue(rr, st))
+				v := genSetterValue(rr, st)
+				if reporting && rr.P(60) {
+					st = []int{6, 7, 8}[rr.N(3)]
+					v = rr.Pick([]string{"x y", "p q r", "a b", "%zz z", "\"<>\""})
+				}
+				h.Set(side, st, v)
 			case 5, 6, 7, 8:
 				s := h.Grab(side)
 				switch rr.N(5) {
